@@ -1,8 +1,30 @@
 package main
 
+import (
+	"fmt"
+	"go/ast"
+)
+
 // Regenerated kernels of the TLS presentation codec (tls/tls.go), property C09:
 // byteCount (width of a length/enum field from its maximum) and fieldInfo.check
 // (the range test applied to every enum value and vector length, in both directions).
+
+// ifBodyKernel translates the body of the unique `if` of fn whose condition source equals cond; falling off its end is `tail`.
+func ifBodyKernel(rel, fn, cond, leanName, params, resultTy, tail string, sp Spec) func() string {
+	return func() string {
+		fd := mustFunc(rel, fn)
+		t := &tr{sp: sp}
+		ss := findStmts(fd, func(s ast.Stmt) bool {
+			i, ok := s.(*ast.IfStmt)
+			return ok && src(i.Cond) == cond
+		})
+		if len(ss) != 1 {
+			panic(bail{fmt.Sprintf("%s: expected exactly one `if %s` in %s, found %d", rel, cond, fn, len(ss))})
+		}
+		body := ss[0].(*ast.IfStmt).Body.List
+		return fmt.Sprintf("/-- generated from %s func %s: body of `if %s` -/\ndef %s %s : %s :=\n  %s\n", rel, fn, cond, leanName, params, resultTy, t.block(body, tail, "  "))
+	}
+}
 
 func init() {
 	f := "tls/tls.go"
@@ -10,5 +32,11 @@ func init() {
 		{"byteCount", funcKernel(f, "byteCount", "byteCount", "(x_ : Int)", "Int", Spec{Kind: "u64", Ret: "tuple"})},
 		{"fieldInfo.check", funcKernel(f, "fieldInfo.check", "fieldInfoCheck", "(count_ minlen_ maxlen_ val_ : Int)", "Bool",
 			Spec{Kind: "u64", Ret: "errbool", Vars: map[string]string{"i.count": "count_", "i.minlen": "minlen_", "i.maxlen": "maxlen_"}})},
+		// the checks fieldTagToFieldInfo applies to the collected info after the clause loop (true = the info is accepted)
+		{"fieldTagToFieldInfo.final", ifBodyKernel(f, "fieldTagToFieldInfo", "info != nil", "tagFinalChecks",
+			"(selEmpty countSet_ : Bool) (count_ minlen_ maxlen_ val_ : Int)", "Bool", "true",
+			Spec{Kind: "u64", Ret: "errlastbool", IgnoreLHS: []string{"info.name"},
+				Repl: map[string]string{`info.selector == ""`: "selEmpty", `info.selector != ""`: "(!selEmpty)"},
+				Vars: map[string]string{"info.count": "count_", "info.countSet": "countSet_", "info.minlen": "minlen_", "info.maxlen": "maxlen_", "info.val": "val_"}})},
 	}})
 }
